@@ -1,9 +1,14 @@
 /-
   val.load <class> <cap> <config> <doc tokens>         (implementation side: harness/ops_valid.cpp)
     answer: ok <state> | validation <path>=[msg|msg];… [<state>] | err <class>
+  val.phone[z|16|32|w] <min> <max> <plus 0|1> <loaded 0|1> <string>     the real PhoneNumber functor on any string
+  val.email[z|16|32|w] <loaded 0|1> <string>                            the real Email functor on any string
+    answer: pass | fail:<message class>;  model = Valid/TextValidators.lean, judged by Valid/TextSpec.lean
 -/
 import BSVerif.Valid.Model
 import BSVerif.Valid.Spec
+import BSVerif.Valid.TextValidators
+import BSVerif.Valid.TextSpec
 import BSVerif.Driver.Scope
 
 namespace BSVerif.Driver.Valid
@@ -147,7 +152,7 @@ def tokOk : Tok → Bool
   | .bool _ => false
   | _ => true
 
-def handle (toks : List String) (impl : Option String) : Option (String × String) :=
+def handleLoad (toks : List String) (impl : Option String) : Option (String × String) :=
   match toks with
   | ["val.load", className, capS, cfgS, docS] => do
     let cap ← capS.toNat?
@@ -168,5 +173,68 @@ def handle (toks : List String) (impl : Option String) : Option (String × Strin
       | none => "nospec"
     pure (ans, v)
   | _ => none
+
+/-! ### the text validators called directly -/
+
+def phoneErrStr : Text.PhoneErr → String
+  | .dashes => "dashes" | .nested => "nested" | .closing => "closing" | .chars => "chars" | .plus => "plus"
+  | .unclosed => "unclosed"
+  | .digitsExact n => s!"digits_eq_{n}"
+  | .digitsRange lo hi => s!"digits_range_{lo}_{hi}"
+
+/-- op suffix → (unit width, C string?) ; the string token → units -/
+def parseText (suffix : String) (text : String) : Option (List Nat) :=
+  match suffix with
+  | "" => parseBytes text
+  | "z" => (parseBytes text).map Text.cstrView
+  | "16" => (parseUnits text).bind fun u => if u.all (· < 65536) then some u else none
+  | "32" => (parseUnits text).bind fun u => if u.all (· < 4294967296) then some u else none
+  | "w" => (parseUnits text).bind fun u => if u.all (· < 4294967296) then some u else none
+  | _ => none
+
+def parseFlag : String → Option Bool
+  | "0" => some false | "1" => some true | _ => none
+
+def implPass (i : String) : Option Bool :=
+  if i == "pass" then some true else if i.startsWith "fail:" then some false else none
+
+def judgeText (v : TextSpec.Verdict) (why : String) (impl : Option String) : String :=
+  match impl with
+  | none => "nospec"
+  | some i =>
+    match implPass i with
+    | some b => TextSpec.judge v b why
+    | none => "bad:unparsable_or_abnormal_answer"
+
+def handleText (toks : List String) (impl : Option String) : Option (String × String) :=
+  match toks with
+  | [op, minS, maxS, plusS, loadedS, text] => do
+    if !op.startsWith "val.phone" then none
+    let s ← parseText (op.drop 9).toString text
+    let min ← minS.toNat?; let max ← maxS.toNat?
+    if min ≥ 18446744073709551616 || max ≥ 18446744073709551616 then none
+    let plus ← parseFlag plusS; let loaded ← parseFlag loadedS
+    let ans := match Text.phone ⟨min, max, plus⟩ loaded s with
+      | none => "pass"
+      | some e => "fail:" ++ phoneErrStr e
+    let v := TextSpec.verdictFor loaded (TextSpec.phoneVerdict min max plus s)
+    pure (ans, judgeText v ((TextSpec.phoneBroken min max plus s).getD "-") impl)
+  | [op, loadedS, text] => do
+    if !op.startsWith "val.email" then none
+    let s ← parseText (op.drop 9).toString text
+    let loaded ← parseFlag loadedS
+    let ans := match Text.email loaded s with
+      | .pass => "pass"
+      | .fail => "fail:invalid"
+      | .sizeOverflow => "size-overflow"
+    let v := TextSpec.verdictFor loaded (TextSpec.emailVerdict s)
+    pure (ans, judgeText v (TextSpec.emailBroken s) impl)
+  | _ => none
+
+def handle (toks : List String) (impl : Option String) : Option (String × String) :=
+  match toks with
+  | "val.load" :: _ => handleLoad toks impl
+  | _ => handleText toks impl
+
 
 end BSVerif.Driver.Valid
